@@ -70,6 +70,30 @@ MapEncodable(pairs) == /\ \A i \in 1..Len(pairs) : Len(pairs[i][1]) <= StringMax
 \* (a stable sort leaves sorted input alone; the shortcut keeps 1000-pair vectors affordable)
 CanonicalSer(pairs) == SerMapping(IF IsSortedPairs(pairs) THEN pairs ELSE SortPairs(pairs))
 
+\* distinct keys that collide under common 32-bit string hashes (FNV-1a, FNV-1, CRC-32, djb2, sdbm, Java hashCode, Adler-32) and two keys whose
+\* byte order and UTF-16 code-unit order differ: any structure that fingerprints or orders keys by something other than their bytes trips here
+CollisionKeys == << << 65, 97 >>,
+                   << 66, 66 >>,
+                   << 97, 97, 99, 97 >>,
+                   << 97, 98, 97, 98 >>,
+                   << 97, 111, 110, 120 >>,
+                   << 98, 105, 104, 99, 97, 108, 117 >>,
+                   << 98, 105, 112, 108, 112, 98, 100 >>,
+                   << 98, 122, 120, 112 >>,
+                   << 99, 111, 115, 116, 97, 114, 114, 105, 110, 103 >>,
+                   << 100, 97, 108, 98 >>,
+                   << 101, 100, 113, 106 >>,
+                   << 103, 104, 107, 106, 104, 117, 101 >>,
+                   << 105, 115, 106, 97, 97, 106, 105, 119 >>,
+                   << 108, 105, 113, 117, 105, 100 >>,
+                   << 110, 112, 110, 97 >>,
+                   << 111, 112, 110, 121 >>,
+                   << 116, 106, 117, 115, 118, 113, 101, 107 >>,
+                   << 121, 116, 109, 121, 119, 119, 114 >>,
+                   << 239, 172, 129, 108, 101 >>,
+                   << 240, 159, 152, 128, 115, 109, 105, 108, 101 >> >>
+CollisionPairs == [i \in 1..Len(CollisionKeys) |-> << CollisionKeys[i], << 48 + (i % 10) >> >>]
+
 \* class of a mapping body for known-finding keys: which leniency of the implementation's loop it meets
 \*   "exact"  : body is exactly pairs
 \*   "tail<6" : pairs, then 1..5 bytes that are themselves a complete short pair (k="" or v="" forms)
